@@ -71,6 +71,8 @@ type KnownASG struct {
 	// before it acts) cannot be seen from outside, so what "the current desired size / membership" is for
 	// the code is not known until the next Refresh: snapshots are handed out as not Valid.
 	Ambiguous bool
+	// AmbiguousMembers: the same for the member list alone (sizes agreed): only rules about membership stand back.
+	AmbiguousMembers bool
 }
 
 func (k *KnownASG) clone() *KnownASG {
@@ -196,6 +198,7 @@ type GroupScan struct {
 	NodesListed bool
 	Pods     []*v1.Pod
 	Nodes    []*v1.Node
+	MembersAmbiguous bool // see KnownASG.AmbiguousMembers
 	KnownAmbiguous bool // see KnownASG.Ambiguous: true if it held at any point of this group's turn
 	StaleNodes map[string]bool // nodes of the view whose cached copy is older than what the API server holds at list time
 	PodsListed bool
